@@ -252,7 +252,7 @@ func genHistory(r *core.Rand, c HistCfg) *Episode {
 	h := uint32(c.Height)
 	leaves := uint32(1) << h
 	ep := &Episode{Kind: "xmss", Profile: c.Profile, Height: c.Height, Hash: c.Hash, Stub: c.Stub, SeedHex: seedHex(r), Twin: c.Twin, Drain: c.Drain, DrainSeed: r.Uint64()}
-	ep.Ctor = []string{"", "", "", "ext", "ext", "height"}[r.Intn(6)]
+	ep.Ctor = []string{"", "", "", "", "ext", "ext", "ext", "height", "height", "extfmt"}[r.Intn(10)]
 	ep.Regen = c.WCrash > 0 && r.Chance(0.5)
 	idx := uint32(0)
 	if c.NearEnd {
